@@ -263,7 +263,7 @@ pub fn corrupt_port_text(t: &mut Tape, valid: &str) -> Vec<u8> {
         }
         1 => {
             let k = t.below(n as u32 + 1) as usize;
-            s.insert(k, *t.pick(&[b'x', b'.', b'-', b'_', b',']));
+            s.insert(k, *t.pick(&[b'x', b'.', b'-', b'_', b',', b'\t', 0x0b, 0x0c, b'\n', 0]));
         }
         2 => {
             // too many digits: 6 .. 24 of them, no leading zero
@@ -358,7 +358,7 @@ fn text_char(t: &mut Tape, ascii_only: bool) -> Vec<u8> {
         // byte searches tend to confuse with them
         2 => vec![*t.pick(&[b'\t', b'\n', 0u8, 0x7f, 0x0b, 0x0c, 0x0c, 0x0e, 0x1f, 0x21, 0x01, 0x1b])],
         _ => {
-            let c = *t.pick(&['\u{e9}', '\u{df}', '\u{20ac}', '\u{4e2d}', '\u{1f600}', '\u{10348}', '\u{7ff}', '\u{800}', '\u{ffff}']);
+            let c = *t.pick(&['\u{e9}', '\u{df}', '\u{20ac}', '\u{4e2d}', '\u{1f600}', '\u{10348}', '\u{7ff}', '\u{800}', '\u{ffff}', '\u{10d}', '\u{10a}', '\u{120}', '\u{200d}', '\u{2020}', '\u{ff0d}', '\u{3000}', '\u{100}', '\u{a0d}']);
             c.to_string().into_bytes()
         }
     }
@@ -621,12 +621,12 @@ pub const BAD_PORTS: &[&str] = &[
 ];
 pub const BAD_V4: &[&str] = &[
     "256.1.1.1", "1.1.1.256", "01.1.1.1", "1.1.1.01", "1.1.1", "1.1.1.1.1", "1..1.1", ".1.1.1", "1.1.1.", "", "::1", "1.1.1.1a", "a.b.c.d",
-    "1.1.1.-1", "+1.1.1.1", "0x7f.0.0.1", "127.1", "2130706433", "1.1.1.1/24", "1.1.1.999", "1.1.1.1:80", "１.1.1.1", "1.1.1.1\t",
+    "1.1.1.-1", "+1.1.1.1", "0x7f.0.0.1", "127.1", "2130706433", "1.1.1.1/24", "1.1.1.999", "1.1.1.1:80", "１.1.1.1", "1.1.1.1\t", "[", "[1.1.1.1]", "1.1.1.1]", "'1.1.1.1'", "[\u{e9}",
 ];
 pub const BAD_V6: &[&str] = &[
     "", "1.2.3.4", ":", ":::", "1::2::3", "1:2:3:4:5:6:7", "1:2:3:4:5:6:7:8:9", "12345::", "g::", "::g", "1:2:3:4:5:6:7:8::", "::1:2:3:4:5:6:7:8",
     "1:2:3:4::5:6:7:8", ":1:2:3:4:5:6:7", "1:2:3:4:5:6:7:", "::1.2.3", "::1.2.3.256", "::01.2.3.4", "1.2.3.4::", "::1.2.3.4:5", "[::1]", "::1%eth0",
-    "fe80::1%1", "::1/128", "1:2:3:4:5:6:7:1.2.3.4", "::ffff:1.2.3.4.5", "0x1::", "-1::", "+1::", "::\t1", "1:2:3:4:5:6:1.2.3.4:7", "::00001",
+    "fe80::1%1", "fe80::1%eth0", "fe80::1%25eth0", "[", "]", "[]", "[::1", "::1]", "(::1)", "\"::1\"", "<::1>", "[\u{e9}", "::1/128", "1:2:3:4:5:6:7:1.2.3.4", "::ffff:1.2.3.4.5", "0x1::", "-1::", "+1::", "::\t1", "1:2:3:4:5:6:1.2.3.4:7", "::00001",
 ];
 
 /// One structural mutation of a valid line (G-V1MUT). Returns the bytes and a label.
@@ -863,7 +863,7 @@ pub fn gen_v1_mutant(t: &mut Tape) -> (Vec<u8>, &'static str) {
                 2 => b"PROXY TCP6 ::1 ".to_vec(),
                 _ => b"PROXY UNKNOWN".to_vec(),
             };
-            let chars = ['\u{e9}', '\u{20ac}', '\u{1f600}', '\u{7ff}', '\u{800}', '\u{10348}'];
+            let chars = ['\u{e9}', '\u{20ac}', '\u{1f600}', '\u{7ff}', '\u{800}', '\u{10348}', '\u{10d}', '\u{10a}', '\u{120}', '\u{200d}', '\u{100}'];
             while line.len() < body_len {
                 let left = body_len - line.len();
                 let c = *t.pick(&chars);
@@ -1044,7 +1044,7 @@ pub fn gen_trailer(t: &mut Tape, utf8_only: bool) -> (Vec<u8>, &'static str) {
             let n = t.usize_in(1, 60);
             let mut s = String::new();
             for _ in 0..n {
-                s.push(*t.pick(&['\u{e9}', '\u{20ac}', '\u{1f600}', 'a', ' ', '\u{7ff}', '\u{800}', '\u{10348}', '\r', '\n', '1']));
+                s.push(*t.pick(&['\u{e9}', '\u{20ac}', '\u{1f600}', 'a', ' ', '\u{7ff}', '\u{800}', '\u{10348}', '\r', '\n', '1', '\u{10d}', '\u{10a}', '\u{120}', '\u{200d}']));
             }
             (s.into_bytes(), "utf8-multibyte-text")
         }
@@ -1530,7 +1530,7 @@ pub fn gen_multibyte_cr(t: &mut Tape) -> String {
             String::from_utf8_lossy(&l[..l.len() - 2]).to_string()
         }
     };
-    let c = *t.pick(&['\u{e9}', '\u{20ac}', '\u{1f600}', '\u{80}', '\u{7ff}', '\u{800}', '\u{10000}']);
+    let c = *t.pick(&['\u{e9}', '\u{20ac}', '\u{1f600}', '\u{80}', '\u{7ff}', '\u{800}', '\u{10000}', '\u{10d}', '\u{10a}', '\u{120}', '\u{200d}']);
     let mut s = head;
     match t.below(4) {
         0 => {
